@@ -26,6 +26,8 @@ import (
 
 type StreamConfig struct {
 	Target  string `json:"target"`            // fw (readTlvStream) | std (StreamFace.Run over net.Pipe) | tcp, unix (the real transport's receive loop over a loopback socket; Reads are the sizes of the writes, the kernel decides the reads)
+	PauseAt []int  `json:"pause_at,omitempty"` // std: write indices before which the sender stays silent for PauseMs (a slow sender; simulated time)
+	PauseMs int    `json:"pause_ms,omitempty"`
 	FaceMtu int    `json:"face_mtu,omitempty"` // tcp, unix: MTU configured on the face (a send-side limit; must not affect what is received)
 	Reads   []int  `json:"reads"`             // read/chunk sizes, used cyclically
 	TempErr []int  `json:"temp_err,omitempty"` // read indices at which a transient error is injected
@@ -100,6 +102,13 @@ func (StreamEngine) Generate(prop string, r *kit.Rand, tier string) *kit.Scenari
 	}
 	if c.Target != "fw" && total > 300000 {
 		total = 300000
+	}
+	if c.Target == "std" && r.Chance(0.4) {
+		// a slow sender: silences in the middle of the stream, wherever the writes happen to end
+		c.PauseMs = kit.Pick(r, []int{100, 900, 1100, 2500, 10000, 70000})
+		for i, n := 0, r.Range(1, 4); i < n; i++ {
+			c.PauseAt = append(c.PauseAt, r.Intn(40))
+		}
 	}
 	types := []int{5, 6, 100, 0x64, 253, 800, 0x10000, 0x12345}
 	sum := 0
@@ -402,9 +411,16 @@ func (e StreamEngine) Run(t *testing.T, ctx *kit.Ctx, sc *kit.Scenario[StreamCon
 					return nil
 				}, func(err error) error { runErr = err; return err })
 				go func() { f.Run(); close(done) }()
+				pauseAt := map[int]bool{}
+				for _, k := range sc.Config.PauseAt {
+					pauseAt[k] = true
+				}
 				go func() {
 					off, i := 0, 0
 					for off < len(data) {
+						if pauseAt[i] && sc.Config.PauseMs > 0 {
+							time.Sleep(time.Duration(sc.Config.PauseMs) * time.Millisecond)
+						}
 						n := reads[i%len(reads)]
 						i++
 						if n < 1 {
@@ -453,7 +469,7 @@ func (e StreamEngine) Run(t *testing.T, ctx *kit.Ctx, sc *kit.Scenario[StreamCon
 	wraps := len(data) / (maxPkt * 32)
 	ctx.ProbeN("buffer-wraps", wraps)
 	res.NonTrivial = (wraps >= 1 && hdrEnds > 0) || (sc.Config.Target != "fw" && len(blocks) > 3)
-	d := kit.NewDigest().I(len(blocks)).I(len(data)).S(strings.Trim(fmt.Sprint(sc.Config.Reads), "[]")).I(sc.Config.EofAt).S(sc.Config.Target).I(sc.Config.FaceMtu)
+	d := kit.NewDigest().I(len(blocks)).I(len(data)).S(strings.Trim(fmt.Sprint(sc.Config.Reads), "[]")).I(sc.Config.EofAt).S(sc.Config.Target).I(sc.Config.FaceMtu).I(sc.Config.PauseMs).S(fmt.Sprint(sc.Config.PauseAt))
 	for _, b := range sc.Ops {
 		d.I(b.T).I(b.L).I(b.N)
 	}
